@@ -39,3 +39,71 @@ func vhCTIMethod(k r.Kind, name string) r.Value {
 	}
 	return r.Value{}
 }
+
+// ---- container methods (cti_method.go): array, slice, map ----
+
+var vhMadeFn func([]r.Value) []r.Value
+var vhMadeSig r.Type
+
+// model of reflect.MakeFunc used under the engine: records the implementation and its signature
+func vhModelMakeFunc(t r.Type, fn func([]r.Value) []r.Value) r.Value {
+	vhMadeSig, vhMadeFn = t, fn
+	return r.Value{}
+}
+
+type vhCM struct {
+	fn  func([]r.Value) []r.Value // under the engine: the implementation handed to reflect.MakeFunc
+	fv  r.Value                   // natively: the function made by reflect.MakeFunc
+	sig r.Type
+}
+
+// call invokes the method; variadic methods receive their last argument as a slice (CallSlice convention)
+func (m vhCM) call(args ...r.Value) (ret []r.Value, panicked bool) {
+	defer func() {
+		if recover() != nil {
+			panicked = true
+		}
+	}()
+	if vhSymbolic() {
+		return m.fn(args), false
+	}
+	if m.fv.Type().IsVariadic() {
+		return m.fv.CallSlice(args), false
+	}
+	return m.fv.Call(args), false
+}
+
+// vhCTIContainer returns the method `name` installed by Universe.addTypeMethodsCTI on the container type rt
+func vhCTIContainer(rt r.Type, name string) vhCM {
+	if vhSymbolic() {
+		etoken.GENERICS = etoken.GENERICS_V2_CTI
+		vhCTIName = name
+		vhMadeFn, vhMadeSig = nil, nil
+		xt := &xtype{kind: rt.Kind(), rtype: rt}
+		v := &Universe{}
+		v.addTypeMethodsCTI(xt)
+		return vhCM{fn: vhMadeFn, sig: vhMadeSig}
+	}
+	if vhNativeUniverse == nil {
+		etoken.GENERICS = etoken.GENERICS_V2_CTI
+		vhNativeUniverse = NewUniverse()
+	}
+	xt := unwrap(vhNativeUniverse.FromReflectType(rt))
+	for i, n := 0, xt.NumMethod(); i < n; i++ {
+		if xt.Method(i).Name == name {
+			fv := (*xt.GetMethods())[i]
+			return vhCM{fv: fv, sig: fv.Type()}
+		}
+	}
+	return vhCM{}
+}
+
+func vhCatchVoid(f func()) (panicked bool) {
+	defer func() {
+		if recover() != nil {
+			panicked = true
+		}
+	}()
+	f()
+	return false
+}
